@@ -272,3 +272,26 @@ V("point scaling on raw coordinates", "C03", POINT, "        result = self.norma
 V("Sphere built from the raw centre", "C03", CURVE, "        c = -center.normalized_array\n        m = np.eye(center.shape[0]", "        c = -center.array\n        m = np.eye(center.shape[0]", "E5.object", "Sphere.__init__")
 V("ufunc.at on a view of the argument", "C12", MATH, "    A = np.asarray(A)\n    _assert_square_matrix(A)\n    n = A.shape[-1]\n\n    if n == 2:\n        return A[..., 0, 0] * A[..., 1, 1]",
   "    A = np.asarray(A)\n    _assert_square_matrix(A)\n    n = A.shape[-1]\n    np.negative.at(A, ())\n\n    if n == 2:\n        return A[..., 0, 0] * A[..., 1, 1]", "E1.mem", "det")
+
+# ------------------------------------------------------------------------------------------------ round 3 (refactoring with a slip)
+V("NotCoplanar guard through a flag computed with np.any", "C02", POINT,
+  "            coplanar: npt.NDArray[np.bool_] = result.is_zero()\n\n            if np.all(coplanar):",
+  "            coplanar: npt.NDArray[np.bool_] = result.is_zero()\n            some_coplanar = np.any(coplanar)\n            if not some_coplanar and (intersect_lines or n == 4):\n                raise NotCoplanar(\"The given lines are not all coplanar.\")\n\n            if np.all(coplanar):", "E7.q", "_join_meet_duality")
+V("NotReducible guard as np.all over the negated predicate", "C14", CURVE,
+  "        if self.dim > 2 and not np.all(is_multiple(outer(q, p), t, rtol=EQ_TOL_REL, atol=EQ_TOL_ABS, axis=(-2, -1))):",
+  "        irreducible = ~is_multiple(outer(q, p), t, rtol=EQ_TOL_REL, atol=EQ_TOL_ABS, axis=(-2, -1))\n        if self.dim > 2 and np.all(irreducible):", "E7.q", "QuadricTensor.components")
+V("twin: NotReducible guard as np.any over the negated predicate", "C14", CURVE,
+  "        if self.dim > 2 and not np.all(is_multiple(outer(q, p), t, rtol=EQ_TOL_REL, atol=EQ_TOL_ABS, axis=(-2, -1))):",
+  "        irreducible = ~is_multiple(outer(q, p), t, rtol=EQ_TOL_REL, atol=EQ_TOL_ABS, axis=(-2, -1))\n        if self.dim > 2 and np.any(irreducible):", "silent")
+V("normalisation fast path as `not np.all(needs_scaling)`", "C04", POINT, "        if np.all(isinf | (z == 1)):\n            return array",
+  "        needs_scaling = ~isinf & (z != 1)\n        if not np.all(needs_scaling):\n            return array", "E6.K6", "_normalize_array")
+V("twin: normalisation fast path as `not np.any(needs_scaling)`", "C04", POINT, "        if np.all(isinf | (z == 1)):\n            return array",
+  "        needs_scaling = ~isinf & (z != 1)\n        if not np.any(needs_scaling):\n            return array", "silent")
+V("support of the moved polygon rebuilt from self in a hook", "C06", SHAPES,
+  "        result = super().__apply__(transformation)\n        if result.dim > 2:\n            result._plane = join(*result.vertices[: result.dim])\n        return result",
+  "        result = super().__apply__(transformation)\n        self._move_support(result, transformation)\n        return result\n\n    def _move_support(self, moved: PolygonTensor, transformation: TransformationTensor) -> None:\n        if moved.dim > 2:\n            moved._plane = join(*self.vertices[: moved.dim])",
+  "E6.K4", "Polygon")
+V("twin: support of the moved polygon rebuilt in a hook from the moved vertices", "C06", SHAPES,
+  "        result = super().__apply__(transformation)\n        if result.dim > 2:\n            result._plane = join(*result.vertices[: result.dim])\n        return result",
+  "        result = super().__apply__(transformation)\n        self._move_support(result, transformation)\n        return result\n\n    def _move_support(self, moved: PolygonTensor, transformation: TransformationTensor) -> None:\n        if moved.dim > 2:\n            moved._plane = join(*moved.vertices[: moved.dim])",
+  "silent")
